@@ -303,23 +303,23 @@ class Interp:
         if end:
             raise PathEnd('fail:' + key)
 
-    def oblige(self, b, key, desc=None):
+    def oblige(self, b, key, desc=None, extra=None):
         """b must hold on every input reaching here.  A feasible violation is recorded (with a model) and the
         path continues under b."""
         self.stats['obligations'] += 1
         if b.conc():
             if not b.v:
-                self.fail(key, desc or key)
+                self.fail(key, desc or key, extra=extra)
             return
         s = z3.simplify(b.v)
         if z3.is_true(s):
             return
         if z3.is_false(s):
-            self.fail(key, desc or key)
+            self.fail(key, desc or key, extra=extra)
         self.solver.push()
         self.solver.add(z3.Not(s))
         if self.check() == z3.sat:
-            self.failures.append(Failure(key, desc or key, self.model_dict(self.solver.model())))
+            self.failures.append(Failure(key, desc or key, self.model_dict(self.solver.model()), extra))
             self.stats['violations'] += 1
         self.solver.pop()
         self.solver.add(s)
@@ -872,8 +872,10 @@ class Interp:
         return r
 
     def _resolve(self, callee, caller):
+        # rustc prints trimmed paths: `Work::<'_>::run` or `work::Work::<'_>::run` depending on what else is in scope
+        short = re.sub(r'^(?:[a-z_][a-z0-9_]*::)+(?=[A-Z])', '', callee)
         for pat, fn in self.overrides:
-            if pat.search(callee):
+            if pat.search(callee) or (short != callee and pat.search(short)):
                 return ('model', fn)
         c = _strip_generics(callee)
         m = re.match(r'^<(.*) as (.*)>::(\w+)$', c)
@@ -886,6 +888,8 @@ class Interp:
             if len(c0) == 1 and ty0 not in ('Vec', 'String', 'Option', 'Result', 'HashMap', 'HashSet', 'Rc', 'Box'):
                 return ('fn', c0[0])
         mdl = self.find_model(callee)
+        if mdl is None and short != callee:
+            mdl = self.find_model(short)
         if mdl is not None:
             return ('model', mdl)
         if m:
